@@ -17,5 +17,18 @@ def fmt(name, N, R, Q=1, D=4, extra=(), **kw):
              desc="format_response: %d question, %d records, names <= %d bytes, raw data <= %d" % (Q, R, N, D))
     d.update(kw); return d
 
+def labels(name, N, T, B=24, J0=10, excl=False, **kw):
+    nl = (N + 1) // 2 + 1
+    d = dict(name=name, harness="C35_response.c", entry="harness_labels",
+             defines=["C35_N=%d" % N, "C35_T=%d" % T, "C35_B=%d" % B, "C35_J0=%d" % J0] + (["C35_KF_EXCLUDE_TERM"] if excl else []),
+             unwind=2,
+             unwindset=["harness_labels.0:%d" % (B + 1), "harness_labels.1:%d" % (T + 1), "harness_labels.2:%d" % (B + 1), "harness_labels.3:%d" % (T + nl + 1),
+                        "vp_bytes.0:%d" % (B + 1), "dnsref_name.0:%d" % (N + 1), "dnsref_name.1:%d" % (N + 6), "dnsref_name_encodable.0:%d" % (N + 1),
+                        "strlen.0:%d" % (N + 2), "strcmp.0:%d" % (N + 2), "strchr.0:%d" % (N + 2), "vp_memcpy.0:%d" % (N + 2), "c35_same_name.0:%d" % (N + 1),
+                        "dnslabel_table_get_pos.0:%d" % (T + nl + 1), "dnslabel_clear.0:%d" % (T + nl + 1), "dnsname_to_labels.1:%d" % (nl + 1)],
+             timeout=900, mem_gb=8,
+             desc="dnsname_to_labels step under an arbitrary valid compression table (<= %d entries, message prefix <= %d symbolic bytes, buffer %d, symbolic buf_len), every encodable name <= %d bytes" % (T, J0, B, N))
+    d.update(kw); return d
+
 def obligations(tier):
-    return [fmt("fmt_q1_r1_n3", 3, 1, extra=["C35_NOTRUNC"])]
+    return [labels("labels_wf_n3_t1", 3, 1, B=16, J0=6, excl=True), labels("labels_all_n3_t1", 3, 1, B=16, J0=6)]
